@@ -21,6 +21,13 @@ CHECKS = {
  'C16': dict(sec='2/C16', tech='exhaustive enumeration of all vector pairs over Z/2^k for small k and dimension (engine D) + BFS to fixpoint over assignment histories on a live Poly (engine H), against a list-of-ints model',
              text='Every ordered pair of vectors over Z/2, Z/4, Z/8 up to dimension 4/3/2 (thorough 6/4/3 and dim-4 over Z/8 against all short vectors) is run through + - ^ & | //, every vector through neg, shifts and every index/slice/list read and write, the integer ring on a signed alphabet, split/pack on 5-8 element sizes; assignment histories on a live Poly are explored to the fixpoint.',
              note='Trusted: Python list arithmetic in mc/checks/c16.py. Out-of-range slices, int-valued slice assignment and pack(poly, big-endian) are not judged (ambiguous in the statement).'),
+
+ 'C15': dict(sec='2/C15', tech='exhaustive enumeration of all byte strings up to 2 bytes and all width-8 polynomials (engine D); bounded enumeration of widths, lengths, positions and targets (engine P) against zlib and bit-by-bit division',
+             text='crc32 is run on every byte string of length 0..2 and 6 patterns at every length to 64/128 against zlib; the table-driven CRC on every width-8 reflected polynomial x every byte x init/final, and on every width 8..64 with 4-7 polynomials against bit-by-bit division; the fixing functions on every position and a 38-word target alphabet, verified with zlib; the backward computation at every position.',
+             note='Trusted: zlib.crc32 and a 6-line bitwise reference. Targets and polynomials above width 8 are a fixed alphabet, not all 2^32 / 2^N values.'),
+ 'C20': dict(sec='2/C20', tech='exhaustive enumeration of all small lists / multisets / item lists (engine D) against itertools and brute force; explicit-state BFS over call histories on the loaded knapsack module (engine H)',
+             text='permutk on every list over {0,1,2} up to length 4/6 and range(n) to 6/8 for every k; nextperm on every permutation and every multiset arrangement; combink for n<=6/7; exactsum/dynprog on every item list up to length 4/6 over weights {1,2,3,5} and every target, validated by brute force (sub-multiset, sum, minimality, failure iff impossible); all call histories to depth 3/4 on one module instance compared with a freshly loaded module.',
+             note='Trusted: itertools and a brute-force subset enumeration. permutk is judged after exhaustion only; exactsum target 0 not judged.'),
 }
 
 PENDING = {}
